@@ -1507,3 +1507,52 @@ func (s *Sim) settleImplicit() {
 		}
 	}
 }
+
+// ---------------------------------------------------------------- Pool
+
+// Pool replaces sync.Pool.  sync.Pool's hits depend on the garbage collector
+// and on which P a goroutine runs; a miss calls New, which may be
+// instrumented code, so the number of scheduling points of a run would depend
+// on them.  Inside a simulation the pool is a plain LIFO.
+type Pool struct {
+	New   func() interface{}
+	items []interface{}
+	mu    sync.Mutex
+	real  sync.Pool
+}
+
+func (p *Pool) Get() interface{} {
+	s := gated()
+	if s == nil || s.cur == nil {
+		if x := p.real.Get(); x != nil {
+			return x
+		}
+		if p.New != nil {
+			return p.New()
+		}
+		return nil
+	}
+	p.mu.Lock()
+	if n := len(p.items); n > 0 {
+		x := p.items[n-1]
+		p.items = p.items[:n-1]
+		p.mu.Unlock()
+		return x
+	}
+	p.mu.Unlock()
+	if p.New != nil {
+		return p.New()
+	}
+	return nil
+}
+
+func (p *Pool) Put(x interface{}) {
+	s := gated()
+	if s == nil || s.cur == nil {
+		p.real.Put(x)
+		return
+	}
+	p.mu.Lock()
+	p.items = append(p.items, x)
+	p.mu.Unlock()
+}
